@@ -1699,3 +1699,157 @@ Qed.
 (* the scripted generators of the harness read nothing but the package path *)
 Lemma scripted_reads_sources_only : forall name alias per_pkg, reads_sources_only (scripted name alias per_pkg).
 Proof. intros name alias per_pkg p p' mv cs [E _]. cbn. now rewrite E. Qed.
+
+(* ================= the order of the generators (GetRegisteredGenerators ranges over a map) ================= *)
+
+Definition prel_log (r1 r2 : option (list effect * calllog)) : Prop :=
+  match r1, r2 with
+  | None, None => True
+  | Some (e1, l1), Some (e2, l2) => Permutation l1 l2 /\ aeq e1 e2
+  | _, _ => False
+  end.
+
+Definition out_equiv_log (r1 r2 : option (fs * calllog)) : Prop :=
+  match r1, r2 with
+  | None, None => True
+  | Some (f1, l1), Some (f2, l2) => feq f1 f2 /\ Permutation l1 l2
+  | _, _ => False
+  end.
+
+Section GenOrder.
+  Variable render : gfile -> option bytes.
+  Variable parse_sum : bytes -> alist bytes.
+  Variable o : oracle.
+  Hypothesis Hs : shuffles o.
+
+  Definition g_ok (a : args) (p : pkg) (pt : alist bytes) (g : gen) : bool :=
+    match gen_one true true o a p pt g with Some _ => true | None => false end.
+  Definition g_entry (a : args) (p : pkg) (pt : alist bytes) (g : gen) : alist genout :=
+    match gen_one true true o a p pt g with Some (_, Some out) => [(g_name g, out)] | _ => [] end.
+  Definition g_log (a : args) (p : pkg) (pt : alist bytes) (g : gen) : calllog :=
+    match gen_one true true o a p pt g with Some (calls, _) => [(pk_path p, g_name g, calls)] | None => [] end.
+
+  Lemma gens_loop_spec : forall a p pt gs gfs log,
+      gens_loop true true o a p pt gs gfs log
+      = if forallb (g_ok a p pt) gs
+        then Some (fold_left (fun m (kv : bytes * genout) => aset (fst kv) (snd kv) m) (flat_map (g_entry a p pt) gs) gfs,
+                   log ++ flat_map (g_log a p pt) gs)
+        else None.
+  Proof.
+    intros a p pt. induction gs as [|g gs IH]; intros gfs log; cbn.
+    - now rewrite app_nil_r.
+    - unfold g_ok at 1, g_entry at 1, g_log at 1.
+      destruct (gen_one true true o a p pt g) as [[calls [out|]]|]; cbn; [| |reflexivity].
+      + rewrite IH. destruct (forallb (g_ok a p pt) gs); [|reflexivity]. now rewrite <- app_assoc.
+      + rewrite IH. destruct (forallb (g_ok a p pt) gs); [|reflexivity]. now rewrite <- app_assoc.
+  Qed.
+
+  Lemma g_entry_keys : forall a p pt gs, NoDup (map g_name gs) -> NoDup (keys (flat_map (g_entry a p pt) gs)).
+  Proof.
+    intros a p pt. induction gs as [|g gs IH]; cbn; intros HN; [constructor|].
+    inversion HN as [|? ? Hn Hr]; subst. rewrite map_app. unfold g_entry at 1.
+    destruct (gen_one true true o a p pt g) as [[calls [out|]]|]; cbn; try now apply IH.
+    constructor; [|now apply IH]. intros Hin. apply Hn.
+    apply in_map_iff in Hin. destruct Hin as [[k v] [Hk Hin]]. cbn in Hk. subst k.
+    apply in_flat_map in Hin. destruct Hin as [g' [Hg' He]]. unfold g_entry in He.
+    destruct (gen_one true true o a p pt g') as [[c' [o'|]]|]; try contradiction.
+    destruct He as [He|[]]. inversion He; subst. now apply in_map.
+  Qed.
+
+  Lemma finish_perm : forall a p gfs1 gfs2,
+      Permutation gfs1 gfs2 -> NoDup (keys gfs1) ->
+      match write_loop render o a p (o _ [bs "gfs"; pk_path p] gfs1) (generated_files a p) [] with
+      | None => match write_loop render o a p (o _ [bs "gfs"; pk_path p] gfs2) (generated_files a p) [] with None => True | Some _ => False end
+      | Some (ws1, st1) =>
+          match write_loop render o a p (o _ [bs "gfs"; pk_path p] gfs2) (generated_files a p) [] with
+          | None => False
+          | Some (ws2, st2) =>
+              aeq (ws1 ++ map (fun kv : bytes * path => ERemove (snd kv)) (o _ [bs "stale"; pk_path p] st1))
+                  (ws2 ++ map (fun kv : bytes * path => ERemove (snd kv)) (o _ [bs "stale"; pk_path p] st2))
+          end
+      end.
+  Proof.
+    intros a p gfs1 gfs2 HP0 HN. rewrite !write_loop_spec.
+    assert (HP : Permutation (o _ [bs "gfs"; pk_path p] gfs1) (o _ [bs "gfs"; pk_path p] gfs2)).
+    { eapply perm_trans; [apply Permutation_sym, Hs|]. eapply perm_trans; [exact HP0|apply Hs]. }
+    rewrite (forallb_perm _ _ _ HP).
+    destruct (forallb (wl_ok render o p) (o _ [bs "gfs"; pk_path p] gfs2)); [|exact I]. cbn.
+    rewrite (fold_left_comm_perm _ (fun s k1 k2 => adel_comm s (filename a (fst k2)) (filename a (fst k1))) _ _ HP).
+    apply aeq_app.
+    - apply aeq_perm_distinct.
+      + apply wl_eff_paths. eapply Permutation_NoDup; [|exact HN]. apply Permutation_map, Hs.
+      + now apply Permutation_flat_map.
+    - apply aeq_refl.
+  Qed.
+
+  Lemma pkg_execute_gens_perm : forall a gens1 gens2 p,
+      Permutation gens1 gens2 -> NoDup (map g_name gens1) ->
+      prel_log (pkg_execute true true render o a gens1 p) (pkg_execute true true render o a gens2 p).
+  Proof.
+    intros a gens1 gens2 p HP HN. unfold pkg_execute. rewrite !gens_loop_spec.
+    rewrite (forallb_perm _ _ _ HP).
+    destruct (forallb (g_ok a p (pkg_tags o p)) gens2); [|exact I]. cbn [app].
+    assert (HN2 : NoDup (map g_name gens2)) by (eapply Permutation_NoDup; [apply Permutation_map; exact HP|exact HN]).
+    rewrite !fold_aset_nodup by (cbn; now apply g_entry_keys). cbn [app].
+    rewrite !map_pair_eta.
+    pose proof (finish_perm a p (flat_map (g_entry a p (pkg_tags o p)) gens1) (flat_map (g_entry a p (pkg_tags o p)) gens2)
+                  (Permutation_flat_map _ HP) (g_entry_keys a p _ gens1 HN)) as HF.
+    destruct (write_loop render o a p (o _ [bs "gfs"; pk_path p] (flat_map (g_entry a p (pkg_tags o p)) gens1)) (generated_files a p) [])
+      as [[ws1 st1]|],
+      (write_loop render o a p (o _ [bs "gfs"; pk_path p] (flat_map (g_entry a p (pkg_tags o p)) gens2)) (generated_files a p) [])
+      as [[ws2 st2]|]; try contradiction; [|exact I].
+    split; [|exact HF]. now apply Permutation_flat_map.
+  Qed.
+
+  Lemma pkgs_loop_gens_perm : forall a w gens1 gens2 prev cur,
+      Permutation gens1 gens2 -> NoDup (map g_name gens1) ->
+      forall l es1 es2 log1 log2, aeq es1 es2 -> Permutation log1 log2 ->
+      prel_log (pkgs_loop true true render o a w gens1 prev cur l es1 log1)
+               (pkgs_loop true true render o a w gens2 prev cur l es2 log2).
+  Proof.
+    intros a w gens1 gens2 prev cur HP HN. induction l as [|[k direct] r IH]; intros es1 es2 log1 log2 He Hl; cbn.
+    - split; assumption.
+    - destruct (negb (a_all a) && negb direct); [now apply IH|].
+      destruct (negb (pkg_changed a prev cur k)); [now apply IH|].
+      destruct (find_pkg k w) as [p|]; [|exact I].
+      pose proof (pkg_execute_gens_perm a gens1 gens2 p HP HN) as HR. unfold prel_log in HR.
+      destruct (pkg_execute true true render o a gens1 p) as [[e1 l1]|],
+               (pkg_execute true true render o a gens2 p) as [[e2 l2]|]; try contradiction; [|exact I].
+      destruct HR as [HL HA]. apply IH; [now apply aeq_app|now apply Permutation_app].
+  Qed.
+
+  Lemma run_gens_perm : forall a e w gens1 gens2 f,
+      Permutation gens1 gens2 -> NoDup (map g_name gens1) ->
+      out_equiv_log (run true true render parse_sum o a e w gens1 f) (run true true render parse_sum o a e w gens2 f).
+  Proof.
+    intros a e w gens1 gens2 f HP HN. unfold run, plan.
+    set (prev := if a_all a && existsb snd (sorted_local o e w) then _ else None).
+    pose proof (pkgs_loop_gens_perm a w gens1 gens2 prev (sum_data o w) HP HN (sorted_local o e w) [] [] [] []
+                  (aeq_refl []) (Permutation_refl [])) as HR. unfold prel_log in HR.
+    destruct (pkgs_loop true true render o a w gens1 prev (sum_data o w) (sorted_local o e w) [] []) as [[es1 l1]|],
+             (pkgs_loop true true render o a w gens2 prev (sum_data o w) (sorted_local o e w) [] []) as [[es2 l2]|];
+      try contradiction; [|exact I].
+    destruct HR as [HL HA]. cbn. split; [|exact HL].
+    destruct (a_all a).
+    - apply (aeq_app _ _ _ _ HA (aeq_refl _)). intros q. reflexivity.
+    - apply HA. intros q. reflexivity.
+  Qed.
+End GenOrder.
+
+Theorem generator_order_independent :
+  forall render parse_sum (o1 o2 : oracle) a e1 e2 w gens1 gens2 f,
+    shuffles o1 -> shuffles o2 -> wf_args a -> wf_world w -> Permutation e1 e2 ->
+    Permutation gens1 gens2 -> NoDup (map g_name gens1) ->
+    out_equiv_log (run true true render parse_sum o1 a e1 w gens1 f) (run true true render parse_sum o2 a e2 w gens2 f).
+Proof.
+  intros render parse_sum o1 o2 a e1 e2 w gens1 gens2 f Hs1 Hs2 Ha Hw He HP HN.
+  pose proof (run_order_independent render parse_sum o1 o2 a e1 e2 w gens1 f Hs1 Hs2 Ha Hw He) as H1.
+  pose proof (run_gens_perm render parse_sum o2 Hs2 a e2 w gens1 gens2 f HP HN) as H2.
+  unfold out_equiv in H1. unfold out_equiv_log in *.
+  destruct (run true true render parse_sum o1 a e1 w gens1 f) as [[f1 l1]|],
+           (run true true render parse_sum o2 a e2 w gens1 f) as [[f1' l1']|]; try contradiction.
+  - destruct H1 as [Hf ->].
+    destruct (run true true render parse_sum o2 a e2 w gens2 f) as [[f2 l2]|]; [|contradiction].
+    destruct H2 as [Hf2 Hl]. split; [|exact Hl]. intros q. now rewrite (Hf q).
+  - destruct (run true true render parse_sum o2 a e2 w gens2 f); [contradiction|exact I].
+Qed.
